@@ -48,7 +48,7 @@ class MessagePackDecodeError(Fault):
                                 .__init__(self.CODE, data)
 
 
-NON_NUMBER_TYPES = tuple({list, dict, six.text_type, six.binary_type})
+NON_NUMBER_TYPES = tuple({list, tuple, dict, six.text_type, six.binary_type})
 
 
 class MessagePackDocument(HierDictDocument):
@@ -188,7 +188,7 @@ class MessagePackDocument(HierDictDocument):
         if isinstance(value, (six.text_type, six.binary_type)):
             return super(MessagePackDocument, self) \
                                                 .integer_from_bytes(cls, value)
-        return value
+        return self._ret_number(cls, value)
 
     def integer_to_bytes(self, cls, value, **_):
         # if it's inside the range msgpack can deal with
